@@ -38,6 +38,7 @@ type Case struct {
 	Desc    bool     `json:"desc_order,omitempty"`
 	MainVar string   `json:"main_variant,omitempty"`
 	ModVars []string `json:"module_variants,omitempty"`
+	Names   []string `json:"module_names,omitempty"` // name of module index i (default m0, m1, ...)
 	// prog
 	Main      string            `json:"main,omitempty"`
 	Mods      map[string]string `json:"mods,omitempty"`
@@ -69,6 +70,7 @@ type block struct {
 	n      int
 	graphs []graph
 	combos []combo // (main variant, module variant assignment)
+	names  []string // module names (nil: m0, m1, ...)
 	label  string
 }
 
@@ -161,6 +163,16 @@ func cross(mains []string, assigns ...[][]string) []combo {
 	return out
 }
 
+// nameSets: module names that are distinct strings but collide under case folding,
+// extension completion, path cleaning or trimming. Distinct names are distinct
+// modules (the module map is looked up by exact name); the oracle is unchanged.
+var nameSets2 = [][]string{
+	{"m", "M"}, {"lib/json", "lib/JSON"}, {"a", "a.tengo"}, {"./a", "a"}, {"a", "a "}, {"\u00e9", "\u00c9"},
+}
+var nameSets3 = [][]string{
+	{"m", "m2", "M"}, {"lib/json", "lib/JSON", "LIB/json"}, {"a", "a.tengo", "./a"}, {"\u00e9", "\u00c9", "e\u0301"}, {"a", "a ", "A"},
+}
+
 func graphBlocks(thorough bool) []block {
 	top := []string{"top"}
 	inFunc := []string{"fcall", "fnocall"}
@@ -169,10 +181,25 @@ func graphBlocks(thorough bool) []block {
 		{n: 1, graphs: allGraphs(1, 1), combos: cross(mainVariants, productAssigns(1)), label: "n=1: all 4 graphs x 3 main variants x all 6 module variants"},
 		{n: 2, graphs: allGraphs(2, 2), combos: cross(mainVariants, productAssigns(2)), label: "n=2: all 64 graphs x 3 main variants x all 36 variant assignments"},
 	}
+	for _, ns := range nameSets2 {
+		bs = append(bs, block{n: 2, graphs: allGraphs(2, 2), combos: cross(mainVariants, productAssigns(2)), names: ns,
+			label: fmt.Sprintf("n=2, module names %q: all 64 graphs x 3 main variants x all 36 variant assignments", ns)})
+	}
+	for _, ns := range nameSets3 {
+		b := block{n: 3, graphs: allGraphs(3, 3), names: ns}
+		if thorough {
+			b.combos = append(cross(mainVariants, uniformAssigns(3)), cross(top, rotatedAssigns(3))...)
+			b.label = fmt.Sprintf("n=3, module names %q: all 4096 graphs x (3 main variants x uniform assignments, main top x rotated assignments)", ns)
+		} else {
+			b.combos = cross(top, uniformAssigns(3)[:1])
+			b.label = fmt.Sprintf("n=3, module names %q: all 4096 graphs x main top x all-map assignment", ns)
+		}
+		bs = append(bs, b)
+	}
 	if thorough {
 		bs = append(bs,
-			block{n: 4, graphs: allGraphs(4, 2), label: "n=4: all 161051 graphs with out-degree<=2 x (main top x uniform+rotated assignments, main fcall/fnocall x all-map assignment)",
-				combos: append(cross(top, uniformAssigns(4), rotatedAssigns(4)), cross(inFunc, uniformAssigns(4)[:1])...)},
+			block{n: 4, graphs: allGraphs(4, 2), label: "n=4: all 161051 graphs with out-degree<=2 x (main top x uniform assignments, main fcall/fnocall x all-map assignment)",
+				combos: append(cross(top, uniformAssigns(4)), cross(inFunc, uniformAssigns(4)[:1])...)},
 			block{n: 3, graphs: allGraphs(3, 3), label: "n=3: all 4096 graphs x (main top x all 216 variant assignments, main fcall/fnocall x uniform+rotated assignments)",
 				combos: append(cross(top, productAssigns(3)), cross(inFunc, uniformAssigns(3), rotatedAssigns(3))...)})
 	} else {
@@ -194,7 +221,7 @@ func (b block) decode(i int64) (c Case, ok bool) {
 	if desc && !g.hasBranching() {
 		return Case{}, false
 	}
-	return Case{Kind: "graph", N: b.n, Edges: g.edges(), Desc: desc, MainVar: b.combos[ci].main, ModVars: b.combos[ci].mods}, true
+	return Case{Kind: "graph", N: b.n, Edges: g.edges(), Desc: desc, MainVar: b.combos[ci].main, ModVars: b.combos[ci].mods, Names: b.names}, true
 }
 
 // ---- aggregation -------------------------------------------------------------------
@@ -235,7 +262,7 @@ func (s *stats) addViolation(v viol, n int64) {
 }
 
 func caseKey(c Case) string {
-	return fmt.Sprint(c.Kind, c.ID, c.N, c.Edges, c.Desc, c.MainVar, c.ModVars)
+	return fmt.Sprint(c.Kind, c.ID, c.N, c.Edges, c.Desc, c.MainVar, c.ModVars, c.Names)
 }
 
 type viol struct {
@@ -277,6 +304,9 @@ func runAny(c Case, st *stats) (obs string) {
 		fails, obs, gs = runGraph(c)
 		st.counters["graph-cases"]++
 		st.counters[fmt.Sprintf("graph-cases-n%d", c.N)]++
+		if len(c.Names) > 0 {
+			st.counters["graph-cases-near-colliding-names"]++
+		}
 		if gs.reachEdges > 0 {
 			st.counters["nontrivial"]++
 		}
@@ -428,7 +458,7 @@ func main() {
 			Validated:   s.counters["cases"],
 			Evaluations: s.counters["cases"],
 			Nontrivial:  s.counters["nontrivial"],
-			Rule: "graph cases = (edge set over importer in {main,m0..m(n-1)} x importee in {m0..}, incl. self-loops) x statement order (descending only when some node has two imports, otherwise it is the same program) x main variant {top,fcall,fnocall} x module variant assignment from {map,noexport,lit,counter,fcall,fnocall}; " +
+			Rule: "graph cases = (edge set over importer in {main,m0..m(n-1)} x importee in {m0..}, incl. self-loops) x statement order (descending only when some node has two imports, otherwise it is the same program) x main variant {top,fcall,fnocall} x module variant assignment from {map,noexport,lit,counter,fcall,fnocall} x module name set (m0.. or a set of distinct names that collide under case folding / extension / path cleaning / trimming); " +
 				"small programs = isolation places x reference forms, export kinds x positions, freshness programs, exported values x write alphabet, import names x file-import x import-dir x module-map content x position. " +
 				"state = one configuration; transition = one Script.Compile, Compiled.RunContext or direct compile on the real implementation; validated = configurations whose outcome was compared with the reachability reference / expected value; " +
 				"non-trivial = graph configurations with at least one import edge whose importer is reachable from main, and every small program (each contains an import expression)",
@@ -659,10 +689,10 @@ func describe(c Case) string {
 			return fmt.Sprintf("%+v", c)
 		}
 		var sb strings.Builder
-		fmt.Fprintf(&sb, "graph n=%d edges=%v desc=%v main=%s mods=%v\n", c.N, c.Edges, c.Desc, c.MainVar, c.ModVars)
-		fmt.Fprintf(&sb, "  --- main ---\n%s", indent(mainSource(g.targets(0, c.Desc), c.MainVar)))
+		fmt.Fprintf(&sb, "graph n=%d edges=%v names=%q desc=%v main=%s mods=%v\n", c.N, c.Edges, shownNames(c), c.Desc, c.MainVar, c.ModVars)
+		fmt.Fprintf(&sb, "  --- main ---\n%s", indent(mainSource(g.targets(0, c.Desc), c.MainVar, namer(c.Names))))
 		for i := 0; i < g.n && i < len(c.ModVars); i++ {
-			fmt.Fprintf(&sb, "  --- m%d ---\n%s", i, indent(moduleSource(i, g.targets(i+1, c.Desc), c.ModVars[i])))
+			fmt.Fprintf(&sb, "  --- m%d = %q ---\n%s", i, namer(c.Names).name(i), indent(moduleSource(i, g.targets(i+1, c.Desc), c.ModVars[i], namer(c.Names))))
 		}
 		return sb.String()
 	case "immut":
